@@ -35,7 +35,7 @@ func (check) Rule() string {
 func (check) Assumptions() []string {
 	return []string{
 		"model evaluator written from the statement (internal/model/varexp.go); spliced text is compared after the library's documented text->value step (parse.Value, checked on its own by C17), parse-neutral texts by plain equality",
-		"not demanded: ${x:+a} for x set to the empty string; exact error text; the value of reads in which a cycle is absorbed AND some setting is evaluated more than once (per-call cache, see C08)",
+		"not demanded: ${x:+a} for x set to the empty string; exact error text",
 		"resolvers answer with parse.NoopConfig",
 	}
 }
@@ -221,10 +221,6 @@ func (check) Run(seed int64, tier string, idx int, verbose bool) harness.Result 
 		}
 		want, mres, tr := expected(w, k)
 		if tr.Budget {
-			continue
-		}
-		if tr.ReEntry && tr.Absorbed && tr.MultiEnter() {
-			res.Ev("skipped_absorbed_cycle_with_repeated_evaluation", 1)
 			continue
 		}
 		cls := classOf(mres)
